@@ -341,6 +341,32 @@ def check_stable_solve(run, A):
                                  and all(any(c.op == 'nondet' and c.args[0] == 'try' for c, _ in e.guards if True) for e in plain))
     run.check(ok and per_matrix, 'LOOP', 'stable_solve: per-matrix fallback is index-local', fn.loc(L.node), f'{len(solves)} per-matrix solves',
               f'fallback loop is not index-local ({"; ".join(sorted(set(why)))}); per-matrix try/except around lstsq: {per_matrix}', construct=f'LOOP::{q}::index-local')
+    # ... and it visits every matrix of the stack: the extent of the loop is the FIRST entry of a 3-D working shape / the first axis of a flattened operand
+    from ..walk import index_extent, shape_dim
+    ext = index_extent(L)
+    ok_ext = None
+    if isinstance(ext, T):
+        e0 = strip_views(ext)
+        sd = shape_dim(e0)
+        if sd is not None:
+            ok_ext = sd[1] == 0
+        elif e0.op == 'sub' and isinstance(const_val(e0.args[1]), int) and not isinstance(const_val(e0.args[1]), bool):
+            ws = strip_views(e0.args[0])
+            # working_shape_A[0] with working_shape_A = (prod(leading), *shape[-2:]): position 0 of a 3-tuple
+            if ws.op in ('tuple', 'list') and len(ws.args[0]) == 3 and not any(x.op == 'star' for x in ws.args[0]):
+                ok_ext = const_val(e0.args[1]) in (0, -3)
+            elif ws.op in ('tuple', 'list') and ws.args[0] and ws.args[0][0].op != 'star':
+                ok_ext = const_val(e0.args[1]) == 0          # [prod(leading), *shape[-2:]]: only position 0 is the flattened leading extent
+            elif ws.op == 'binop' and ws.args[0] == 'Add' and strip_views(ws.args[1]).op in ('tuple', 'list') and len(strip_views(ws.args[1]).args[0]) == 1:
+                ok_ext = const_val(e0.args[1]) == 0
+    if isinstance(ext, tuple) and ext and ext[0] == 'len':
+        ok_ext = True              # `for a in A` / enumerate(zip(A, B)): iterating an array visits its whole first axis (that the arrays are the flattened stacks is the rule below)
+    if ok_ext is None:
+        run.unresolved('LOOP', 'stable_solve: the fallback loop visits every matrix of the flattened stack', fn.loc(L.node), 'extent of the loop not recognised')
+    else:
+        run.check(ok_ext, 'LOOP', 'stable_solve: the fallback loop visits every matrix of the flattened stack', fn.loc(L.node), '',
+                  'the loop does not run over the first (flattened leading) axis of the 3-D working arrays: matrices are skipped or the index runs past the stack',
+                  construct=f'LOOP::{q}::extent')
     # the loop runs over the FLAT index of the leading axes: whatever it indexes with that index (both operands, the result buffer) is a stack flattened to 3-D
     def flattened(t, depth=0):
         """True / False / None (not recognised)"""
